@@ -1,2 +1,347 @@
+"""C19, second half - get_svh against spec/measures/SVH.tla.
+
+Design: spec/mc/MC_SVH.tla explored exhaustively (all exact-regime instances over a small node set, the
+step-up rule on arbitrary p-value vectors).  Binding: real Hypergraph objects under several label families,
+get_svh(max_order, mp), per-size DataFrame rows logged; spec/trace/Trace_C19S.tla decides the tested set, the
+lower-set property, and - where the binomial tails fit TLC's 32-bit integers (exact regime) - the p-values and
+the validated set.  Outside the exact regime TLC prints the parameters (w, N, K_i, spanned nodes) and the
+same tail / threshold definitions are evaluated here over Python integers / Fractions.
+`run(res, tier, seed)` only adds to the shared Result; checks/c19.py finishes it.
+"""
+import concurrent.futures as cf
+import json
+import math
+import os
+import random
+import shutil
+from fractions import Fraction
+
+from harness import tlc
+from harness.binding import Binding, LABEL_FAMILIES, quiet
+
+INT_MAX = 2147483647
+INVARIANTS = ["KoccSum", "KoccBounds", "ProbInUnit", "TestedPartition", "TailTotal", "TailMonotone",
+              "TailMonotoneInP", "LowerSetInv", "StepUpRule"]
+RTOL = 1e-9
+
+
+def exact_regime(N, n):
+    """SVH.tla ExactRegime: N^(n*N+1) fits a 32-bit integer"""
+    return N >= 1 and N ** (n * N + 1) <= INT_MAX
+
+
+# ---------------------------------------------------------------------------------------------
+def explore_design(res, tier):
+    cfgs = [dict(n=4, sizes={2, 3, 4}, mixed=False, maxtotal=0), dict(n=3, sizes={2}, mixed=True, maxtotal=3)]
+    if tier != "quick":
+        cfgs += [dict(n=5, sizes={2, 3, 4, 5}, mixed=False, maxtotal=0), dict(n=4, sizes={2}, mixed=True, maxtotal=3),
+                 dict(n=6, sizes={2, 3}, mixed=False, maxtotal=0)]
+
+    def one(c):
+        cfg = tlc.cfg_text({"Kind": "hg", "Node": set(range(1, c["n"] + 1)), "Sizes": c["sizes"], "Mixed": c["mixed"],
+                            "MaxTotal": c["maxtotal"], "PD": 6, "Levels": {2, 3, 4, 6}}, invariants=INVARIANTS)
+        r = tlc.run("MC_SVH", cfg, workers=4 if tier == "quick" else 8, timeout=3000, heap="4g")
+        if not tlc.ok_exploration(r):
+            raise tlc.TLCError("MC_SVH %s failed:\n%s" % (c, tlc.error_excerpt(r["out"])))
+        s = tlc.stats(r["out"])
+        return {"module": "MC_SVH", "kind": "hg", "n": c["n"], "sizes": sorted(c["sizes"]), "mixed_sizes": c["mixed"],
+                "states": s["distinct"], "transitions": s["generated"], "wall_s": round(r["wall"], 1)}
+
+    with cf.ThreadPoolExecutor(max_workers=2) as ex:
+        runs = list(ex.map(one, cfgs))
+    res.cov(states=sum(r["states"] for r in runs), transitions=sum(r["transitions"] for r in runs))
+    res.coverage.setdefault("explorations", []).extend(runs)
+    res.coverage.setdefault("invariants", [])
+    for i in INVARIANTS:
+        if i not in res.coverage["invariants"]:
+            res.coverage["invariants"].append(i)
+
+
+# ---------------------------------------------------------------------------------------------
+# inputs
+def gen_exact(rng):
+    """occurrence counts inside the exact regime for every size present"""
+    n = rng.randint(3, 7)
+    edges = {}
+    for size, cap in ((2, 5), (3, 4), (4, 3), (5, 3), (6, 3)):
+        if size > n or rng.random() < 0.35:
+            continue
+        for _ in range(rng.randint(1, cap)):
+            e = tuple(sorted(rng.sample(range(1, n + 1), size)))
+            if rng.random() < 0.4 and any(len(x) == size for x in edges):
+                e = rng.choice([x for x in edges if len(x) == size])
+            edges[e] = edges.get(e, 0) + 1
+    if rng.random() < 0.3:
+        edges[(rng.randint(1, n),)] = rng.randint(1, 3)          # single-node hyperedge: never tested
+    if not edges:
+        edges[(1, 2)] = 1
+    return n, edges
+
+
+def gen_large(rng):
+    n = rng.randint(6, 14)
+    edges = {}
+    for _ in range(rng.randint(4, 28)):
+        size = rng.choice([2, 2, 2, 3, 3, 4, 5, 1])
+        size = min(size, n)
+        e = tuple(sorted(rng.sample(range(1, n + 1), size)))
+        edges[e] = edges.get(e, 0) + rng.choice([1, 1, 1, 2, 3, 4])
+    # plant over-expressed hyperedges on otherwise rare nodes (these are the ones that get validated)
+    for _ in range(rng.randint(0, 3)):
+        size = rng.choice([2, 2, 3, 4])
+        e = tuple(sorted(rng.sample(range(1, n + 1), size)))
+        edges[e] = edges.get(e, 0) + rng.randint(6, 18)
+    return n, edges
+
+
+def gen_background(rng):
+    """many unit-weight pairs plus a few heavy hyperedges on fresh nodes: validated and non-validated rows"""
+    n = rng.randint(9, 14)
+    edges = {}
+    core = list(range(1, n - 3))
+    for _ in range(rng.randint(12, 30)):
+        e = tuple(sorted(rng.sample(core, rng.choice([2, 2, 3]))))
+        edges[e] = edges.get(e, 0) + 1
+    fresh = list(range(n - 3, n + 1))
+    for size in rng.sample([2, 3], rng.randint(1, 2)):
+        e = tuple(sorted(rng.sample(fresh, size)))
+        edges[e] = rng.randint(3, 9)
+    return n, edges
+
+
+def build(b, edges, weighted, rng):
+    obj = b.new(weighted)
+    items = list(edges.items())
+    rng.shuffle(items)
+    with quiet():
+        for e, w in items:
+            if weighted:
+                obj.add_edge(b._tuple(e), weight=w)
+            else:
+                obj.add_edge(b._tuple(e))
+    return obj
+
+
+def _ranks(ps):
+    """dense ranks of floats, values within RTOL of their predecessor share a rank"""
+    order = sorted(range(len(ps)), key=lambda i: ps[i])
+    rk, cur, prev = [0] * len(ps), 0, None
+    for i in order:
+        if prev is None or ps[i] - prev > RTOL * max(abs(prev), 1e-300):
+            cur += 1
+        prev = ps[i]
+        rk[i] = cur
+    return rk
+
+
+def observe(b, obj, edges, mx, mp, cid):
+    from hypergraphx.filters.statistical_filters import get_svh
+    c = {"id": cid, "st": b.state(obj), "mx": mx, "ok": True, "sizes": []}
+    raw = {}
+    try:
+        with quiet():
+            out = get_svh(obj, max_order=mx, mp=mp)
+        for size, df in out.items():
+            n = int(size)
+            rows = [(tuple(e), float(p), bool(f)) for e, p, f in zip(df["edge"], df["pvalue"], df["fdr"])]
+            N = sum(w for e, w in edges.items() if len(e) == n)
+            ex = exact_regime(N, n)
+            den = N ** (n * N) if ex else 0
+            rk = _ranks([p for _, p, _ in rows])
+            lst = []
+            for (e, p, f), r in zip(rows, rk):
+                row = {"e": [b.unlab(x) for x in e], "fdr": f, "rank": r, "pnum": 0, "pok": True}
+                if ex:
+                    if p != p or p < 0 or p > 1.0000001:
+                        row["pnum"], row["pok"] = -1, False
+                    else:
+                        row["pnum"] = int(round(p * den))
+                        row["pok"] = abs(p - row["pnum"] / den) <= RTOL * max(p, 1.0 / den)
+                lst.append(row)
+            c["sizes"].append({"n": n, "exact": ex, "den": den, "rows": lst})
+            raw[n] = rows
+        err = ""
+    except Exception as exn:
+        c["ok"] = False
+        c["sizes"] = []
+        err = "%s: %s" % (type(exn).__name__, exn)
+    return c, raw, err
+
+
+# ---------------------------------------------------------------------------------------------
+# TLC validation (CaseRunner protocol + the PAR lines)
+def _batch(args):
+    cases, idx, timeout = args
+    wd = tlc.workdir("c19s")
+    try:
+        path = os.path.join(wd, "cases.json")
+        with open(path, "w") as f:
+            json.dump({"cases": cases}, f)
+        cfg = tlc.cfg_text({"Kind": "hg"}, init="TInit", next_="TNext")
+        r = tlc.run("Trace_C19S", cfg, wd=wd, workers=1, env={"TRACE_FILE": path}, timeout=timeout)
+        rj, done, par = [], None, {}
+        for s in tlc.printed_strings(r["out"]):
+            if s.startswith("RJ "):
+                ci, _, failed = tlc.parse_value(s[3:])
+                rj.append((idx[ci - 1], sorted(failed)))
+            elif s.startswith("DONE "):
+                done = [int(x) for x in s.split()[1:]]
+            elif s.startswith("PAR "):
+                p = json.loads(s[4:])
+                par[(p["id"], p["n"])] = p["par"]
+        if done is None or done[0] != len(cases):
+            raise tlc.TLCError("Trace_C19S did not consume all %d cases (DONE=%s)\n%s"
+                               % (len(cases), done, tlc.error_excerpt(r["out"])))
+        st = tlc.stats(r["out"]) or {"distinct": 0}
+        return rj, par, st["distinct"]
+    finally:
+        shutil.rmtree(wd, ignore_errors=True)
+
+
+def validate(cases, procs=12, timeout=1800):
+    per = max(10, len(cases) // procs + 1)
+    jobs = [(cases[i:i + per], list(range(i, min(len(cases), i + per))), timeout) for i in range(0, len(cases), per)]
+    rj, par, states = [], {}, 0
+    with cf.ThreadPoolExecutor(max_workers=procs) as ex:
+        for a, b, c in ex.map(_batch, jobs):
+            rj += a
+            par.update(b)
+            states += c
+    return sorted(rj), par, states
+
+
+# the statement's definitions over Python integers (outside TLC's 32-bit range)
+def tail(N, a, b, w):
+    """P[Bin(N, a/b) >= w] as a Fraction (SVH.tla TailNum / b^N)"""
+    num = sum(math.comb(N, j) * a ** j * (b - a) ** (N - j) for j in range(w, N + 1))
+    return Fraction(num, b ** N)
+
+
+def judge_large(par, n, rows):
+    """rows: (edge ids tuple, float p, flag). Returns (failed clauses, stats)"""
+    N, na = par["N"], par["na"]
+    spec = {}
+    for nodes, w, ks in par["rows"]:
+        a = 1
+        for _, kk in ks:
+            a *= kk
+        spec[frozenset(nodes)] = tail(N, a, N ** n, w)
+    failed, skipped = [], 0
+    ps = []
+    for e, p, f in rows:
+        q = spec[frozenset(e)]
+        ps.append(q)
+        if not (abs(p - float(q)) <= RTOL * float(q) + 1e-300):
+            failed.append("svh_pvalue_is_binomial_tail")
+    M = 100 * math.comb(na, n)
+    srt = sorted(ps)
+    istar = 0
+    for i, q in enumerate(srt, 1):
+        if q < Fraction(i, M):
+            istar = i
+    near = any(abs(float(q) * M - i) <= 1e-7 * i for q in ps for i in range(1, len(ps) + 1))
+    if near:
+        skipped = 1
+    else:
+        for (e, p, f), q in zip(rows, ps):
+            if f != (q < Fraction(istar, M)):
+                failed.append("svh_validated_iff_below_threshold")
+    return sorted(set(failed)), skipped, istar
+
+
+# ---------------------------------------------------------------------------------------------
 def run(res, tier, seed):
-    pass
+    quick = tier == "quick"
+    pool = cf.ThreadPoolExecutor(max_workers=1)
+    design = pool.submit(explore_design, res, tier)
+    rng = random.Random(seed * 15485863 + 19)
+    fams = ("ident", "sparse", "str", "zero")
+    plan = [(gen_exact, 150 if quick else 3000), (gen_large, 90 if quick else 2500), (gen_background, 40 if quick else 800)]
+    n_mp = 3 if quick else 60
+    cases, descr, raws = [], [], []
+    i = 0
+    for gen, count in plan:
+        for j in range(count):
+            n, edges = gen(rng)
+            unweighted = rng.random() < 0.15
+            if unweighted:
+                edges = {e: 1 for e in edges}
+            fam = fams[i % 4]
+            b = Binding("hg", LABEL_FAMILIES[fam](n) if n <= 7 else _family(fam, n), rng)
+            obj = build(b, edges, not unweighted, rng)
+            top = max(len(e) for e in edges)
+            bounds = sorted(set([rng.randint(1, top + 1), 10] if j % 3 else [rng.randint(2, top + 1)]))
+            for mx in bounds:
+                mp = n_mp > 0 and gen is not gen_exact and j % 7 == 3
+                if mp:
+                    n_mp -= 1
+                c, raw, err = observe(b, obj, edges, mx, mp, len(cases))
+                cases.append(c)
+                raws.append(raw)
+                descr.append({"n": n, "hyperedges": [[list(e), w] for e, w in sorted(edges.items())], "weighted": not unweighted,
+                              "labels": b.labels, "max_order": mx, "mp": mp, "error": err, "family": gen.__name__})
+            i += 1
+    rj, par, states = validate(cases)
+    design.result()
+    pool.shutdown()
+
+    rejected = {}
+    for idx, failed in rj:
+        if "svh_harness_regime_agrees" in failed:
+            raise tlc.TLCError("harness and SVH.tla disagree on the exact regime: %s" % json.dumps(descr[idx]))
+        rejected[idx] = list(failed)
+    # outside the exact regime: the tails of the statement over Fractions, parameters from TLC
+    n_exact = n_large = n_large_rows = n_exact_rows = skipped = validated_rows = 0
+    for idx, c in enumerate(cases):
+        for s in c["sizes"]:
+            validated_rows += sum(1 for r in s["rows"] if r["fdr"])
+            if s["exact"]:
+                n_exact += 1
+                n_exact_rows += len(s["rows"])
+                continue
+            p = par.get((c["id"], s["n"]))
+            if p is None:
+                continue                     # tested set already rejected by TLC for this size
+            n_large += 1
+            n_large_rows += len(s["rows"])
+            rows = [(tuple(r["e"]), raws[idx][s["n"]][k][1], r["fdr"]) for k, r in enumerate(s["rows"])]
+            failed, sk, _ = judge_large(p, s["n"], rows)
+            skipped += sk
+            if failed:
+                rejected.setdefault(idx, [])
+                rejected[idx] = sorted(set(rejected[idx]) | set(failed))
+    for idx in sorted(rejected):
+        d = descr[idx]
+        res.reject({"part": "svh", "clauses": rejected[idx]},
+                   "get_svh disagrees with SVH.tla (%s) on %s, max_order=%d, mp=%s, labels %s%s"
+                   % (",".join(rejected[idx]), d["hyperedges"], d["max_order"], d["mp"], d["labels"],
+                      (" [" + d["error"] + "]") if d["error"] else ""),
+                   {"case": d, "logged": cases[idx]["sizes"],
+                    "returned": {str(k): [[list(map(str, e)), p, f] for e, p, f in v] for k, v in raws[idx].items()}})
+    res.cov(traces_validated_against_impl=len(cases), validator_states=states,
+            svh_calls=len(cases), svh_calls_mp=sum(1 for d in descr if d["mp"]),
+            svh_size_tables_exact_in_tlc=n_exact, svh_rows_exact_in_tlc=n_exact_rows,
+            svh_size_tables_tail_over_fractions=n_large, svh_rows_tail_over_fractions=n_large_rows,
+            svh_validated_rows=validated_rows, svh_threshold_ties_skipped=skipped)
+    pick = max(range(len(cases)), key=lambda k: sum(1 for s in cases[k]["sizes"] for r in s["rows"] if r["fdr"]))
+    res.sample({"svh_input": descr[pick], "returned": {str(k): [[list(map(str, e)), p, f] for e, p, f in v]
+                                                       for k, v in raws[pick].items()}})
+    res.assume("get_svh: called with the default alpha (the code ignores alpha; the statement does not mention it); the level of one "
+               "test is 0.01 / C(number of nodes spanned by the tested hyperedges of that size, size), step-up threshold",
+               "get_svh p-values: in the exact regime (N^(size*N+1) < 2^31: size 2 N<=5, size 3 N<=4, sizes 4-6 N<=3) the returned "
+               "float must be within 1e-9 (relative) of pnum/N^(size*N) and TLC compares pnum with the exact tail; outside it TLC "
+               "decides tested set, lower-set property and the parameters (w, N, K_i, spanned nodes) and the binomial tail / "
+               "threshold of the statement are evaluated over Python Fractions from those parameters (relative tolerance 1e-9); "
+               "validated flags are not judged when an exact p-value lies within 1e-7 (relative) of a level i x bonf")
+
+
+def _family(fam, n):
+    if fam == "ident":
+        return list(range(1, n + 1))
+    if fam == "zero":
+        return list(range(0, n))
+    if fam == "sparse":
+        base = [10, 3, 7, 5, 12, 1, 8, 30, 21, 17, 40, 2, 19, 25, 33, 50]
+        return base[:n]
+    base = ["b", "a", "d", "c", "f", "e", "g", "k", "h", "j", "m", "i", "z", "x", "y", "w"]
+    return base[:n]
